@@ -114,8 +114,10 @@ def _others(ip):
     b = W.matrixarray(ip, 'B', 'Real', origin='other')
     ip.declare('s')
     ip.declare('v', 'tensor')
+    ip.declare('w', 'row')        # a 1-D array with one value per column, shape (rank,): broadcast along the last axis
     return [('MatrixArray', b, B), ('scalar', Num(N.sym('s')), N.sym('s')),
-            ('ndarray', Arr(N.sym('v'), 'other_array', ip), N.sym('v'))]
+            ('ndarray', Arr(N.sym('v'), 'other_array', ip), N.sym('v')),
+            ('row vector', Arr(N.sym('w'), 'other_row', ip), N.sym('w'))]
 
 
 _OWN_ATTRS = ('data', 'space', 'types', 'rank', 'length', 'typeMap')
@@ -138,7 +140,7 @@ def rule_arithmetic(ctx, rules=('R13.3', 'R13.4', 'R13.5', 'R13.8')):
         if m is None:
             continue
         construct = '%s.%s' % (MA, name)
-        kinds = ('MatrixArray',) if 'matmul' in name else ('MatrixArray', 'scalar', 'ndarray')
+        kinds = ('MatrixArray',) if 'matmul' in name else ('MatrixArray', 'scalar', 'ndarray', 'row vector')
         for kind in kinds:
           from ..interp import explore
 
@@ -226,7 +228,7 @@ def rule_arithmetic(ctx, rules=('R13.3', 'R13.4', 'R13.5', 'R13.8')):
         if sib is not None and inplace and not t.equals(sib):
             ctx.violation('R13.5', '%s.%s' % (MA, base), 'sibling:' + kind,
                           'in-place variant computes %s, out-of-place computes %s' % (N.show(t), N.show(sib)))
-    ctx.floor('R13.5', n, 32, 'operator x operand-kind combinations')
+    ctx.floor('R13.5', n, 40, 'operator x operand-kind combinations')
 
 
 def rule_broadcast(ctx, rule='R13.b'):
@@ -276,14 +278,15 @@ def rule_broadcast(ctx, rule='R13.b'):
 
 def rule_dot_invert(ctx, rule='R13.6'):
     cls = ctx.prog.cls(MA)
-    for inplace in (False, True):
+    for inplace, spname in ((False, 'Real'), (True, 'Real'), (False, 'Fourier'), (True, 'Fourier')):
         for name, want in (('dot', N.fn('dot', A, B)), ('invert', N.fn('inv', A))):
             m = cls.find_method(name)
             construct = '%s.%s' % (MA, name)
             rid = 'R13.6' if name == 'dot' else 'R13.7'
             try:
                 ip = _ip(ctx.prog)
-                a, b = _pair(ip)
+                a = W.matrixarray(ip, 'A', spname, origin='self')
+                b = W.matrixarray(ip, 'B', spname, origin='other')
                 adata, bdata = a.attrs['data'], b.attrs['data']
                 e0 = len(ip.events)
                 args = [b] if name == 'dot' else []
@@ -324,13 +327,87 @@ def rule_dot_invert(ctx, rule='R13.6'):
                 bad.append('the result is stored into an array that has the dtype of an operand (%s at %s): integer data is '
                            'truncated' % (casts[0].get('via'), casts[0]['loc']))
             sp = res.attrs.get('space') if isinstance(res, Obj) else None
-            if not (isinstance(sp, Const) and sp.v == ('Space', 'Real')):
-                bad.append('result space is %r' % (sp,))
+            if not (isinstance(sp, Const) and sp.v == ('Space', spname)):
+                bad.append('result of %s-space operands is flagged %r' % (spname, getattr(sp, 'v', sp)))
             if bad:
-                ctx.violation(rid, construct, 'inplace=%s' % inplace, '; '.join(bad), m.loc())
+                ctx.violation(rid, construct, 'inplace=%s:%s' % (inplace, spname), '; '.join(bad), m.loc())
             else:
-                ctx.holds(rid, construct, 'inplace=%s: data == %s, aliasing discipline respected' % (inplace, N.show(want)),
-                          m.loc(), key='inplace=%s' % inplace, sample={'member': name, 'inplace': inplace, 'data': N.show(t)})
+                ctx.holds(rid, construct, 'inplace=%s, %s space: data == %s, flag kept, aliasing discipline respected' % (
+                    inplace, spname, N.show(want)), m.loc(), key='inplace=%s:%s' % (inplace, spname),
+                    sample={'member': name, 'inplace': inplace, 'data': N.show(t)})
+
+
+def rule_rank_one(ctx, rule='R13.o'):
+    """One-component arrays (rank 1), decided on the real class with a concrete rank (the symbolic worlds assume a generic
+    rank of at least two): every operator, dot and invert act on the single pair function as the scalar operation, Real with
+    Fourier is refused and NonSpatial combines with either -- also on whatever special path the code takes for rank 1."""
+    cls = ctx.prog.cls(MA)
+    space_cls = 'Space'
+    n = 0
+    ops = [(nm, BIN[nm][0], BIN[nm][1]) for nm in sorted(BIN) if cls.find_method(nm) is not None and 'matmul' not in nm]
+    ops += [('dot', lambda a, b: a * b, False), ('dot:inplace', lambda a, b: a * b, True), ('__matmul__', lambda a, b: a * b, False),
+            ('invert', lambda a, b: N.NF.const(1) / a, False)]
+    for name, build, inplace in ops:
+        meth = name.split(':')[0]
+        m = cls.find_method(meth)
+        if m is None:
+            continue
+        construct = '%s.%s' % (MA, meth)
+        bad, und = [], []
+        for sa, sb in (('Real', 'Real'), ('Fourier', 'Fourier'), ('Real', 'Fourier'), ('Fourier', 'Real'), ('Fourier', 'NonSpatial'),
+                       ('NonSpatial', 'Real')):
+            if meth == 'invert' and sb != sa:
+                continue
+            try:
+                ip = Interp(ctx.prog)
+                ip.natives[('shape', '__getitem__')] = ip.lib.shape_getitem
+                Lsym = ip.declare('L', integer=True)
+                made = []
+                for tag, sp in (('a00', sa), ('b00', sb)):
+                    ip.declare(tag, 'curve')
+                    o = ip.construct(cls, [], {'length': Num(Lsym), 'rank': const_num(1), 'space': W.SPACE[sp]})
+                    d = o.attrs.get('data')
+                    if not isinstance(d, Arr):
+                        raise Unsupported('MatrixArray.data is %r' % (d,))
+                    d.cells = {(0, 0): N.sym(tag)}
+                    made.append(o)
+                a, b = made
+                kw = {'inplace': Const(True)} if name.endswith(':inplace') else {}
+                try:
+                    res = _call(ip, a, meth, [] if meth == 'invert' else [b], kw)
+                    refused = None
+                except Raised as e:
+                    res, refused = None, e.exc
+            except Unsupported as e:
+                und.append('%s with %s: %s' % (sa, sb, e))
+                continue
+            ok = allowed(sa, sb) or meth == 'invert'
+            if refused is not None:
+                if ok:
+                    bad.append('%s with %s raises %s for one-component arrays' % (sa, sb, refused))
+                elif refused != 'AssertionError':
+                    bad.append('%s with %s is refused with %s, not the AssertionError of the space guard' % (sa, sb, refused))
+                continue
+            if not ok:
+                bad.append('%s with %s is accepted for one-component arrays (the space guard is skipped)' % (sa, sb))
+                continue
+            rd = res.attrs.get('data') if isinstance(res, Obj) else None
+            if not isinstance(rd, Arr):
+                bad.append('does not return a MatrixArray with data')
+                continue
+            got = ip.read_cell(rd, 0, 0)
+            want = build(N.sym('a00'), N.sym('b00'))
+            if P.is_pw(got) or not got.equals(want):
+                bad.append('%s with %s: the single pair function is %s, expected %s' % (sa, sb, P.show(got)[:80], N.show(want)))
+        n += 1
+        if bad:
+            ctx.violation(rule, construct, 'rank-one:' + name, '; '.join(sorted(set(bad))[:3]), m.loc())
+        elif und:
+            ctx.undecided(rule, construct, und[0], m.loc())
+        else:
+            ctx.holds(rule, construct, '%s on rank-1 arrays: scalar operation on the pair function, space rule enforced' % name, m.loc(),
+                      key=name)
+    ctx.floor(rule, n, 10, 'members executed on one-component arrays')
 
 
 def rule_get_copy(ctx, rule='R13.3'):
